@@ -1208,7 +1208,7 @@ class Config:  # pylint: disable=too-many-instance-attributes
         else:
             path = self._key
 
-        if self._container:
+        if self._container is not None:
             try:
                 pos = self._container._get_item_position(self)
             except:  # noqa: E722
